@@ -45,6 +45,9 @@ func newExec(s *scn.Scenario, opt Options) *exec {
 	x.sim = &Sim{cfg: s.Cfg, st: x.res.Stats, trace: opt.Trace}
 	x.sim.current.Store(-1)
 	useNS = s.Cfg.NS
+	// a new bindings map per run, shared by every Compile of the run (callers do
+	// share one map between goroutines); the xml prefix is deliberately not declared
+	nsMap = map[string]string{"x": "urn:x", "y": "urn:y"}
 	for i, d := range s.Docs {
 		x.docs = append(x.docs, world.Build(i, d))
 	}
@@ -94,6 +97,20 @@ func (x *exec) nav(d, c int) *world.Nav {
 func (x *exec) soloRun(text string, d, c int, api string, limit int) Outcome {
 	e := x.begin(SoloBudget, 0)
 	defer x.end(e)
+	// the reference run gets its own copy of the namespace bindings: it must
+	// not be able to influence (or be influenced by) the run through that map
+	shared := nsMap
+	nsMap = map[string]string{}
+	for k, v := range shared {
+		nsMap[k] = v
+	}
+	defer func() { nsMap = shared }()
+	if api == "pkgselect" {
+		// the deprecated package-level Select compiles by itself (never with a namespace map)
+		o := pkgSelect(text, x.nav(d, c))
+		o.Steps = e.Steps
+		return o
+	}
 	ex, co := compile(text)
 	if ex == nil {
 		co.Steps = e.Steps
@@ -101,8 +118,6 @@ func (x *exec) soloRun(text string, d, c int, api string, limit int) Outcome {
 	}
 	var o Outcome
 	switch api {
-	case "pkgselect":
-		o = pkgSelect(text, x.nav(d, c))
 	case "select":
 		o = selectAll(ex, x.nav(d, c), limit)
 	default:
